@@ -115,12 +115,13 @@ def spec_for(kind, param, tr, eol):
 
 def jobs(tier):
     out = []
+    TR = traits_of(NAME, {name: expr.replace('::match( in )', '') for name, tr, eol, expr, kind, param in ROOTS})
     for name, tr, eol, expr, kind, param in ROOTS:
         if tier != 'thorough' and tr == 'lazy' and kind in ('eol', 'eolf') and eol not in ('lf_crlf', 'cr_crlf'):
             continue
         sp = spec_for(kind, param, tr, eol)
         con = rc_leaf(tr, eol, look=sp.get('look', False), progress=sp.get('progress', False), pos=sp.get('pos', True),
-                      extra=sp['extra'], can_succeed=sp.get('can_succeed', True), can_fail=sp.get('can_fail', True))
+                      extra=sp['extra'] + c11_leaf(TR[name]), can_succeed=sp.get('can_succeed', True), can_fail=sp.get('can_fail', True))
         stubs = g_pos.pos_stubs()
         unwind = None
         if kind == 'everything':
